@@ -8,7 +8,7 @@ variable {c : PCtx} {A B T q : String} {fs : List FieldSpec}
 /-- the realised insertion point of the `j`-th element under `q`, with id `i`: `q:<j>#<i>` -/
 def pointL (q : String) (j : Nat) (i : String) : String := Point.encodeList q j (some i)
 
-theorem extract_pointL (q i : String) (j : Nat) (hq1 : '#' ∉ q.toList) (hq2 : ':' ∉ q.toList) (hi : '#' ∉ i.toList) :
+theorem extract_pointL (q i : String) (j : Nat) (hq1 : '#' ∉ q.toList) (hq2 : ':' ∉ q.toList) :
     Point.extract (pointL q j i) = .ok ⟨q, some j, i⟩ := by
   unfold Point.extract pointL Point.encodeList
   rw [String.toList_ofList]
